@@ -1504,7 +1504,9 @@ func init() {
 
 // c08lzfOverlap: in each lzfDecompress, a builtin copy whose source and destination are slices of the same buffer must have
 // src.High <= dst.Low proven (no overlap); the byte-serial form `output = append(output, output[srcPos+i])` is the reference.
-func c08lzfOverlap(c *Ctx, r *Result) {
+func c08lzfOverlap(c *Ctx, r *Result) { lzfOverlapRule(c, r, "C08.8") }
+
+func lzfOverlapRule(c *Ctx, r *Result, rule string) {
 	n := 0
 	for _, name := range []string{"core.lzfDecompress", "writer.lzfDecompress"} {
 		fn := c.Fn(r, name)
@@ -1535,6 +1537,15 @@ func c08lzfOverlap(c *Ctx, r *Result) {
 					bad = c.InstrPos(call)
 				}
 			case "append":
+				// append(output, output[lo:hi]...): a block of the buffer appended to itself; it may only read what is already there
+				if len(call.Call.Args) == 2 {
+					if sl, ok := call.Call.Args[1].(*ssa.Slice); ok && sameBufferChain(sl.X, call.Call.Args[0]) {
+						if sl.High == nil || !fb.ProveGE0At(fb.lenOfOperand(call.Call.Args[0]).add(fb.lin(sl.High), -1), call) {
+							bad = c.InstrPos(call)
+						}
+						return
+					}
+				}
 				// append(output, output[k]): one byte re-read from the buffer being extended
 				if len(call.Call.Args) == 2 {
 					if sl, ok := call.Call.Args[1].(*ssa.Slice); ok {
@@ -1559,17 +1570,17 @@ func c08lzfOverlap(c *Ctx, r *Result) {
 		})
 		switch {
 		case bad != "":
-			r.Viol("C08.8", name+"#backref-replicated-serially", bad, "a back-reference is expanded with a block copy inside the output buffer whose ranges are not shown to be disjoint: with offset < length the bytes written by this very reference must be re-read (run-length style data decodes to zeros)")
+			r.Viol(rule, name+"#backref-replicated-serially", bad, "a back-reference is expanded with a block copy inside the output buffer whose ranges are not shown to be disjoint: with offset < length the bytes written by this very reference must be re-read (run-length style data decodes to zeros)")
 		case serial:
-			r.Hold("C08.8", name+"#backref-replicated-serially", c.Pos(fn.Pos()), "back-references are expanded byte by byte from the growing output")
+			r.Hold(rule, name+"#backref-replicated-serially", c.Pos(fn.Pos()), "back-references are expanded byte by byte from the growing output")
 		default:
-			r.Undec("C08.8", name+"#backref-replicated-serially", c.Pos(fn.Pos()), "expansion of back-references not recognised")
+			r.Undec(rule, name+"#backref-replicated-serially", c.Pos(fn.Pos()), "expansion of back-references not recognised")
 		}
 	}
 	if n < 2 {
-		r.Errorf("C08.8: lzfDecompress implementations not found")
+		r.Errorf(rule+": lzfDecompress implementations not found")
 	}
-	r.Floor("C08.8", 2)
+	r.Floor(rule, 2)
 }
 
 // sameBufferChain: both values are versions of one growing buffer (the same value, or connected through phi / append / slices.Grow / re-slice).
